@@ -237,4 +237,44 @@ theorem drain_two (s : Srv.State) (now : Nat) (xs ys : Bytes) :
       simp only [after]
       exact msgLoop_acc _ _ now r1
 
+/-- drain the pieces one call after another; an error ends it -/
+def drainAll (s : Srv.State) (now : Nat) : Bytes → List Bytes → Srv.State × Except Err (List Srv.Res)
+  | call, [] => drain s now call
+  | call, c2 :: rest =>
+    match drain s now call with
+    | (s1, .ok r1) => mapOk r1 (drainAll s1 now c2 rest)
+    | (s1, .error e) => (s1, .error e)
+
+/-- **C15, server session, any number of pieces**: if draining the whole stream in one call succeeds,
+    draining it piece by piece — any pieces, including empty ones — gives the same final state and the
+    same results in the same order -/
+theorem drain_partition (now : Nat) : ∀ (rest : List Bytes) (s sF : Srv.State) (call : Bytes) (rs : List Srv.Res),
+    drain s now (call :: rest).flatten = (sF, .ok rs) → drainAll s now call rest = (sF, .ok rs) := by
+  intro rest
+  induction rest with
+  | nil =>
+    intro s sF call rs h
+    simpa [drainAll] using h
+  | cons c2 rest ih =>
+    intro s sF call rs h
+    have h2 : (call :: c2 :: rest).flatten = call ++ (c2 :: rest).flatten := by simp
+    rw [h2, drain_two] at h
+    simp only [drainAll]
+    cases hd : drain s now call with
+    | mk s1 r =>
+      rw [hd] at h
+      cases r with
+      | error e => simp at h
+      | ok r1 =>
+        simp only at h ⊢
+        cases hr : drain s1 now (c2 :: rest).flatten with
+        | mk s2 r2 =>
+          rw [hr] at h
+          cases r2 with
+          | error e => simp [mapOk] at h
+          | ok rs2 =>
+            have := ih s1 s2 c2 rs2 hr
+            rw [this]
+            exact h
+
 end Rml.SrvPart
